@@ -51,6 +51,56 @@ KEY_DOCS = [
     "[{'a.b': [[{'c/d': [1, {'e f': 2}]}]]}, [[3]]]",
     "s: !!set\n  ? a\n  ? 'b*'\n  ? '&c'\n  ? 'd\\.e'\n  ? 7\n",
 ]
+def py_escape(section, sepc):
+    """YAMLPath.escape_path_section re-implemented (so that generating cases needs no repository import)"""
+    escaped = section
+    for symbol in ["\\", sepc, "(", ")", "[", "]", "^", "$", "%", " ", "'", '"']:
+        rt = "\\" + symbol
+        escaped = rt.join(part.replace(symbol, rt) for part in escaped.split(rt))
+    return escaped
+
+
+def straight_text(loc, sepname):
+    """the text of a location given as a list of keys (str, or ('k', int)) and positions (('i', n))"""
+    sepc = "." if sepname == "dot" else "/"
+    out = "/" if sepname == "slash" else ""
+    first = True
+    for r in loc:
+        if isinstance(r, tuple) and r[0] == "i":
+            out += "[%d]" % r[1]
+        else:
+            k = str(r[1]) if isinstance(r, tuple) else r
+            out += ("" if first else sepc) + py_escape(k, sepc)
+        first = False
+    return out
+
+
+# straight key / index paths into the documents above: every handler of a KEY / INDEX segment sees keys with
+# every escapable character (the wildcard paths of ESC_PATHS reach them through other handlers only)
+STRAIGHT = {
+    ("E", 0): [["a.b", "c.d"], ["e/f", "g/h"], ["i j", ("i", 1), "k l"], ["i j", ("i", 0)]],
+    ("E", 1): [["[x]"], ["(y)", "[z]"], ["q'"], ['r"'], ["a^"], ["b$"], ["c%"], ["&d", "&e"]],
+    ("E", 2): [["/lead", "/x"], ["tr/"], [".dot", ".x"], ["back\\slash"], [" sp"], ["sp "]],
+    ("E", 3): [[("i", 0), "a.b"], [("i", 1), "c/d", ("i", 0)]],
+    ("K", 0): [[k] for k in ["a\\)b", "c\\^d", "e\\$f", "g\\%h", "i\\", "j\\k", "l\\.m", "n\\/o", "p\\(q", "r\\[s", "t\\]u",
+                             "v\\ w", "x\\'y", "z\\\\z", "b\\\\", 'q\\"r']],
+    ("K", 1): [[" ", " "], ["  lead"], ["trail  "], ["\t", "\t"], ["(p"], ["[b"], ["]c"], [")d"], ["+1"], ["1_0"]],
+    ("K", 2): [[("k", 5)], ["2"], [("k", 3)], ["3"], [("k", -4)]],
+    ("K", 3): [[("i", 0), "a.b", ("i", 0), ("i", 0), "c/d", ("i", 1), "e f"], [("i", 1), ("i", 0), ("i", 0)]],
+    ("K", 4): [["s", "a"], ["s", "b*"], ["s", "&c"], ["s", "d\\.e"]],
+}
+
+
+def straight_paths(kind, idx):
+    out = []
+    for loc in STRAIGHT.get((kind, idx), []):
+        for sepname in ("dot", "slash"):
+            t = straight_text(loc, sepname)
+            if t not in out:
+                out.append(t)
+    return out
+
+
 ESC_PATHS = ["*", "**", "*.*", "**.*", "/*", "/**", "[.!=zzz]", "*[.!=zzz]", "**[.!=zzz]", "[.=~/./]", "*.*.*",
              "[0]", "[0].*", "*[0]", "[&anc]", "*[&s]", "**[&anc]", "a", "c", "d.*", "s.*", "s[.%/]", "[a:zz]"]
 
@@ -409,8 +459,10 @@ def chunks(tier, seed):
     thorough = tier == "thorough"
 
     def gen():
-        for d in ESC_DOCS + KEY_DOCS:
-            yield (d, ESC_PATHS)
+        for i, d in enumerate(ESC_DOCS):
+            yield (d, ESC_PATHS + straight_paths("E", i))
+        for i, d in enumerate(KEY_DOCS):
+            yield (d, ESC_PATHS + straight_paths("K", i))
         for i, (d, paths) in enumerate(ec.gen_cases(tier, seed, with_collectors=False)):
             ps = [p for p in paths if "(" not in p]
             if ps and i % (2 if thorough else 3) == 0:
